@@ -1,0 +1,15 @@
+//go:build verif
+
+// Contracts for package preprocessor (HTTP scenario preprocessor), checked by /verif/govc. Comment-only: no code.
+package preprocessor
+
+// Variables for a step: each mapping entry is a template function call or a path into the shot's variables; the shot's
+// variables are only read.
+//@ func (p *Preprocessor) Process
+//@ props C15 C13 C11
+//@ nilsafe
+//@ requires imp(p != nil, p.iterator != nil)
+//@ loop 0 invariant result != nil
+//@ ensures [nil-preprocessor-does-nothing] imp(p == nil, result0 == nil && result1 == nil)
+//@ at call mp.GetMapValue assert [looked-up-in-the-variables-of-this-shot] arg(current) == templateVars && arg(path) == v && arg(iter) == p.iterator
+//@ at call templater.ExecTemplateFuncWithVariables assert [function-arguments-from-this-shot] arg(templateVars) == templateVars && arg(iter) == p.iterator
